@@ -50,7 +50,7 @@ fn required_clauses(p: u32) -> Vec<&'static str> {
         13 => vec!["C13.offered", "C13.must-be-offered"],
         14 => vec!["C14.config-with-ff-terminal", "C14.declaration-order-variant"],
         15 => vec!["C15.twin-pair-with-noisy-history"],
-        16 => vec!["C16.validated-ephemeral-reexecuted"],
+        16 => vec!["C16.validated-ephemeral-reexecuted", "C16.changed-output-state", "C16.changed-output-terminal"],
         17 => vec!["C17.transition", "C17.state"],
         18 => vec!["C18.removed-dependency", "C18.absent", "C18.new-record", "C18.superseded"],
         20 => vec!["C20.illegal-call"],
@@ -227,6 +227,7 @@ pub fn plan(p: u32, tier: &str) -> Vec<Run> {
             add(s3(false), families::slots(3));
             add(s4(false), families::slots(4));
             add(s4d2ff(), families::slots(4));
+            add(s("S3D2-volatile", 2, m), families::slots_volatile(3));
             add(shapes_spec("shapes-D2", 2, false), families::shapes(true));
             if thorough {
                 add(s3d3(), families::slots(3));
@@ -240,6 +241,10 @@ pub fn plan(p: u32, tier: &str) -> Vec<Run> {
         8 | 9 => {
             add(s3(true), families::slots(3));
             add(s4(true), families::slots(4));
+            // failures the engine declares itself (a validated Ephemeral changing its output)
+            let mut v = s("S3D2-volatile+follow", 2, m);
+            v.follow = true;
+            add(v, families::slots_volatile(3));
             if thorough {
                 add(s3d3(), families::slots(3));
                 let mut d3f = s("S3D3-follow-last", 3, m);
@@ -374,6 +379,7 @@ pub fn plan(p: u32, tier: &str) -> Vec<Run> {
             add(s3(false), families::slots(3));
             add(s4(false), families::slots(4));
             add(s4d2ff(), families::slots(4));
+            add(s("S3D2-volatile", 2, m), families::slots_volatile(3));
             add(shapes_spec("shapes-D2", 2, false), families::shapes(true));
             if thorough {
                 add(s3d3(), families::slots(3));
